@@ -8,7 +8,8 @@ CFG = {
             "frame_len_checked_before_alloc", "frame_recv_ok_iff", "mux_recv_ok_iff", "truncated_frame_rejected", "frame_unchecked_allocates", "preface_alloc_bounded",
             "noise_buffers_in_bounds", "noise_frame_always_fits",
             "timestamp_read_total", "duration_read_total", "duration_read_ok_iff", "duration_read_value",
-            "timestamp_read_legacy_panics", "duration_legacy_panics_iff", "timestamp_display_total", "timestamp_display_legacy_panics", "timestamp_display_legacy_panics_iff", "timestamp_debug_total", "timestamp_debug_legacy_panics", "timestamp_debug_legacy_panics_iff",
+            "timestamp_read_legacy_panics", "duration_legacy_panics_iff", "duration_build_total", "duration_build_legacy_overflows_iff",
+            "duration_build_legacy_witness", "timestamp_debug_legacy_unreachable_after_f12", "timestamp_display_total", "timestamp_display_legacy_panics", "timestamp_display_legacy_panics_iff", "timestamp_debug_total", "timestamp_debug_legacy_panics", "timestamp_debug_legacy_panics_iff",
             "bitvec_read_total", "bitvec_read_ok_iff", "socketaddr_read_total",
             "ratelimit_read_total", "read_total", "all_readers_safe", "every_reader_total", "genesis_read_total",
             "genesis_read_legacy_panics", "read_language_can_panic", "canonical_total", "canonical_legacy_panics_iff",
@@ -45,8 +46,8 @@ CFG = {
                       "block_store.rs:23 checked_sub; runner.rs fetched block -> number equality, manager.rs:187/217 and "
                       "block_store.rs:31 compare against the LOCAL next(); runner.rs:90 verify. Every other next()/prev()/+1 in "
                       "network, engine, executor is applied to the node's own store / own announcement / local ids and overflows "
-                      "only if the node itself holds block or version 2^64-1 (list in Model/C10Store.lean). The repairs of F3, F4, F5, F9, F10 (Display of time::Utc) and F11 (Debug of "
-                      "time::Utc) are load-bearing: the pre-repair transcriptions are proved to panic "
+                      "only if the node itself holds block or version 2^64-1 (list in Model/C10Store.lean). The repairs of F3, F4, F5, F9, F10 (Display of time::Utc), F11 (Debug of "
+                      "time::Utc) and F12 (Duration::build overflow below i64::MIN seconds) are load-bearing: the pre-repair transcriptions are proved to panic "
                       "on the concrete witnesses. NOT modelled (third party, only exercised by the correspondence run): "
                       "prost/quick_protobuf byte decoding, snow (Noise handshake and AEAD), blst / ed25519-dalek key and signature "
                       "validation, semver, tokio; they enter the models as arbitrary oracles. NOT modelled, only exercised end to end by the `node` family (a real "
